@@ -2,6 +2,9 @@
 Tie: real `vsb backup` runs under a fake clock (same day, +1 h, next day, gaps) with limits 1..4 x 1..4 changed
 between runs and storages seeded with debris; after every run the storage listing is compared with the Gallina
 model (Verify.publish followed by gc) and the property's statement is evaluated on the real listing."""
+import os
+import time
+
 from vlib import build, runs, slevel, trace
 
 
@@ -13,7 +16,7 @@ def run(ctx):
     nhist, nruns = (60, 14) if thorough else (7, 9)
     ctx.rule = ("%d histories of %d runs each: limits drawn from 1..4 x 1..4 and changed between runs with probability 0.2; a fifth of the runs fail hard (ENOSPC / EIO / EACCES injected into write / fsync / rename / mkdir); clock steps "
                 "{+1 s, +2 s, +1 h, +11 h, next day, +9 days}; before a run, with probability 0.3, debris is seeded (hidden / foreign files at "
-                "root or group level, abandoned temporary, backup directory missing a file, empty older group). Compared after every run: "
+                "root or group level, abandoned temporary, backup directory missing a file, empty older group, foreign directory with a group-like prefix). Compared after every run: "
                 "group and backup names vs Verify.publish + gc; evaluated: group sizes, number of groups, which groups were removed, that "
                 "nothing is removed from a storage with unlistable entries or by an unpublished run. Non-trivial: a published run; distinct by "
                 "(clock, tree size, edits, group sizes)." % (nhist, nruns))
@@ -40,6 +43,35 @@ def run(ctx):
                 ctx.sample({"history": H.log[:6]})
         if ctx.violations:
             break
+    # targeted: a foreign directory whose name only starts like a group name (kept by hand: "<date>.old") lies in the root while the storage
+    # goes over the limit: it is an unlistable entry - nothing may be deleted, least of all the directory itself; once it is gone, rotation resumes
+    for suffix, note in ([(".old", True), ("-copy", False)] if not ctx.violations else []):
+        with slevel.Sandbox("c07f") as sb:
+            H = runs.History(ctx, sb, rng, "C07", 1, 1)
+            H.w.populate(nfiles=3)
+            H.advance = lambda: None
+            H.now = runs.BASE + 3600
+            H.run(nedits=0)
+            foreign = os.path.join(H.w.st, time.strftime("%Y.%m.%d", time.gmtime(runs.BASE - 500 * 86400)) + suffix)
+            os.mkdir(foreign, 0o700)
+            if note:
+                open(os.path.join(foreign, ".note"), "w").close()
+            H.debris_seeded = True
+            H.dec = H.w.decode()
+            H.log.append({"debris": "foreign directory %s" % os.path.basename(foreign)})
+            ctx.count("targeted.group-like-foreign-directory")
+            H.now += 86400
+            H.run(nedits=1)
+            if not os.path.isdir(foreign) and not ctx.violations:
+                H.violation("C07", "the foreign directory %s in the storage root was deleted by the run" % os.path.basename(foreign))
+            if not ctx.violations:
+                import shutil
+                shutil.rmtree(foreign)
+                H.dec = H.w.decode()
+                H.log.append({"debris removed": os.path.basename(foreign)})
+                H.now += 86400
+                H.run(nedits=1)
+            H.report_diffs("rotation-retention")
     # targeted: the storage is full (max_backup_groups groups, newest one full), the next day's run opens a new group and then
     # fails hard before publishing: nothing may be deleted
     for (mg, mp) in ([(1, 1), (2, 1), (1, 2), (3, 2)] if not ctx.violations else []):
